@@ -63,7 +63,8 @@ fn cmd_check(args: &[String]) {
     let tier = arg_after(args, "--tier").map(|s| s.to_string()).or(std::env::var("VERIF_TIER").ok()).unwrap_or("quick".into());
     let thorough = tier == "thorough";
     let tier = if thorough { "thorough" } else { "quick" };
-    let budget = arg_after(args, "--budget").and_then(|s| s.parse().ok()).unwrap_or(p.budget(thorough));
+    let div: u64 = arg_after(args, "--budget-div").and_then(|s| s.parse().ok()).unwrap_or(1).max(1);
+    let budget = arg_after(args, "--budget").and_then(|s| s.parse().ok()).unwrap_or(p.budget(thorough) / div);
     let workers = arg_after(args, "--workers").and_then(|s| s.parse().ok()).unwrap_or(16usize).max(1);
     let out = arg_after(args, "--out").unwrap_or("/verif").to_string();
     let seed = verif_seed();
@@ -101,6 +102,8 @@ fn cmd_check(args: &[String]) {
             });
         }
         let (mut min, evals) = rx.recv_timeout(std::time::Duration::from_secs(120)).unwrap_or((sc.clone(), 0));
+        // the interface menu the scenario refers to
+        min.set("tree_seed", simcore::spec::TREE_SEED as i64);
         min.class = class.clone();
         let mut st = Stats::default();
         let detail_min = match p.check(&min, &mut st) {
@@ -156,10 +159,12 @@ fn cmd_check(args: &[String]) {
     if skipped_pct > 20.0 {
         println!("WARNING: {skipped_pct:.1}% of the scenarios were skipped because a precondition measured on the real code failed");
     }
-    let e = runner::EvidenceInput { prop: p, tier, seed, res: &res, violations, known: known_hits };
-    if let Err(err) = runner::write_evidence(&out, &e) {
-        eprintln!("cannot write evidence: {err}");
-        exit(2);
+    if !args.iter().any(|a| a == "--no-evidence") {
+        let e = runner::EvidenceInput { prop: p, tier, seed, res: &res, violations, known: known_hits };
+        if let Err(err) = runner::write_evidence(&out, &e) {
+            eprintln!("cannot write evidence: {err}");
+            exit(2);
+        }
     }
     exit(exit_code);
 }
@@ -187,6 +192,12 @@ fn cmd_replay(args: &[String]) {
         }
     };
     let p = prop_or_die(Some(&sc.prop));
+    if let Some(ts) = sc.knob("tree_seed") {
+        if ts as u64 != simcore::spec::TREE_SEED {
+            eprintln!("replay file refers to the interface menu of SIM_TREE_SEED={ts}, this binary was built with {}; use ./check --replay, which builds the right one", simcore::spec::TREE_SEED);
+            exit(2);
+        }
+    }
     if sc.knob("extra").is_some() {
         let mut st = Stats::default();
         match p.extra(&mut st) {
